@@ -28,6 +28,9 @@ def scenarios(thorough):
         Ev = lambda k: {"k": k, "kind": "expect", "expect_value": val}
         out.append(cc.mk([Ev(1)], lookahead=0, split="headbody", waits=(1,), name="expect %s waits" % val))
         out.append(cc.mk([P(1), Ev(2)], lookahead=1, workers=2, split="joinheads", waits=(2,), name="plain+expect %s head same read, waits" % val))
+    for la in (0, 1):
+        out.append(cc.mk([P(1), E(2)], lookahead=la, workers=1, split="joinheads", waits=(), body_in_two=True, name="plain+expect head same read, body sent in two pieces without waiting, la=%d" % la))
+        out.append(cc.mk([E(1), E(2)], lookahead=la, workers=2, split="headbody", waits=(), body_in_two=True, name="two expecting requests, bodies in two pieces, client never waits, la=%d" % la))
     out.append(cc.mk([E(1), E(2)], lookahead=1, workers=2, split="headbody", waits=(1, 2), name="two expecting requests, both wait"))
     out.append(cc.mk([{"k": 1, "kind": "expect_nobody"}, P(2)], lookahead=0, split="each", name="body-less expecting request then plain"))
     out.append(cc.mk([{"k": 1, "kind": "expect_nobody"}], lookahead=0, name="body-less expecting request alone"))
